@@ -199,12 +199,14 @@ func selectPhantomImplV0(seed []byte, subnets []*phantomNet) (*PhantomIP, error)
 func SelectAddrFromSubnet(seed []byte, net1 *net.IPNet) (net.IP, error) {
 	bits, addrLen := net1.Mask.Size()
 
-	ipBigInt := &big.Int{}
+	var base net.IP
 	if v4net := net1.IP.To4(); v4net != nil {
-		ipBigInt.SetBytes(net1.IP.To4())
+		base = v4net
 	} else if v6net := net1.IP.To16(); v6net != nil {
-		ipBigInt.SetBytes(net1.IP.To16())
+		base = v6net
 	}
+	ipBigInt := &big.Int{}
+	ipBigInt.SetBytes(base)
 
 	seedInt, n := binary.Varint(seed)
 	if n == 0 {
@@ -234,7 +236,7 @@ func SelectAddrFromSubnet(seed []byte, net1 *net.IPNet) (net.IP, error) {
 	randBigInt.And(randBigInt, maskBigInt)
 	ipBigInt.Add(ipBigInt, randBigInt)
 
-	return net.IP(ipBigInt.Bytes()), nil
+	return ipFromBigInt(ipBigInt, len(base))
 }
 
 func init() {
